@@ -6,6 +6,8 @@ body bytes handed to the application for request number `i`.
 import TornadoModel.C04.Lemmas
 import TornadoModel.C04.Monotone
 import TornadoModel.C04.RunLevel
+import TornadoModel.C04.GzProduced
+import TornadoModel.C04.Within
 namespace TornadoModel.C04
 open TornadoModel.C01 TornadoModel.C04.Spec
 
@@ -216,7 +218,7 @@ theorem run_closed_absorbs (cfg : Cfg) (pre segs : List Str) (hc : (run cfg init
   unfold feed
   rw [app_of_closed _ hc, drain_of_closed hc]
 
--- non-vacuity.  (1) max_header_size 5: six bytes without a terminator, fed one by one after a served GET
+-- non-vacuity.  (1) max_header_size 21: a served 21-byte GET, then 22 bytes without a terminator in two segments
 example : (run { maxHeader := 21 } init [[71, 32, 47, 32, 72, 84, 84, 80, 47, 49, 46, 49, 10, 72, 111, 115, 116, 58, 120, 10, 10]]).phase
     = .headers := by decide
 example : findHeadEnd ((run { maxHeader := 21 } init [[71, 32, 47, 32, 72, 84, 84, 80, 47, 49, 46, 49, 10, 72, 111, 115, 116, 58, 120, 10, 10]]).buf
@@ -266,6 +268,60 @@ theorem gz_run_size_gt_rejected (limit : Nat) (calls : List (Str × List Ans))
 
 example : (gzRun 5 [([1], [([9, 9, 9], 0)])] {}).rejected = false ∧
     (gzRun 5 [([1], [([9, 9, 9], 0)]), ([2], [([8, 8, 8], 0)]), ([3], [([7], 0)])] {}).delivered = [[9, 9, 9]] := by decide
+
+/-- gzip, all positions: `gzProduced` (C04/GzProduced.lean) is the total output of the decompressor answers the delegate
+    consumed over the whole sequence of `data_received` calls — a function of the scripts, not of the delegate's counter
+    (`gzRun_size`: the counter equals it).  Whenever the body decompressed beyond the limit — at whichever call and
+    whichever iteration of the `while compressed_data` loop — HTTPInputError was raised, and what was handed over
+    stays within the limit. -/
+theorem gz_run_beyond_refused (limit : Nat) (calls : List (Str × List Ans))
+    (h : gzProduced limit calls {} > limit) :
+    (gzRun limit calls {}).rejected = true ∧ total (gzRun limit calls {}).delivered ≤ limit := by
+  refine ⟨gz_run_size_gt_rejected limit calls ?_, gz_delivered_le_limit limit calls⟩
+  rw [gzRun_size]; simpa using h
+
+/-- conversely a body that was not refused was handed over completely: delivered = produced -/
+theorem gz_run_accepted_whole (limit : Nat) (calls : List (Str × List Ans))
+    (h : (gzRun limit calls {}).rejected = false) :
+    total (gzRun limit calls {}).delivered = gzProduced limit calls {} := by
+  have hi := (ginv_run limit calls {} ⟨by simp [total], fun _ => by simp [total]⟩).2 h
+  rw [← hi, gzRun_size]; simp
+
+-- non-vacuity: limit 5; the second answer of the second call takes the output to 7
+example : gzProduced 5 [([1], [([9, 9, 9], 0)]), ([2, 3], [([8], 1), ([7, 7, 7], 0)]), ([4], [([6], 0)])] {} = 7 ∧
+    (gzRun 5 [([1], [([9, 9, 9], 0)]), ([2, 3], [([8], 1), ([7, 7, 7], 0)]), ([4], [([6], 0)])] {}).delivered
+      = [[9, 9, 9], [8]] := by decide
+
+/-! ### run level, within the limits: delivered whole, boundary included
+
+A request at any reachable message boundary whose header block ends within `max_header_size` (`k ≤ maxHeader`: equality
+included) and whose framing is accepted under the effective limit of its position with a non-empty fixed body
+(`cl_at_limit_ok`: Content-Length `n ≤ limit`, equality included), and which is completely contained in what follows, is
+announced, handed over whole in one piece, finished and answered; the run continues at the next boundary with exactly the
+remaining bytes.  (Persistent connection; a non-persistent one differs only by the final `closed`.) -/
+theorem run_cl_within_delivered (cfg : Cfg) (pre segs : List Str) (k n : Nat) (m t v : Str) (h : Hdrs) (hostv cv : Str)
+    (hp : (run cfg init pre).phase = .headers)
+    (hk : findHeadEnd ((run cfg init pre).buf ++ segs.flatten) = some k) (hfit : k ≤ cfg.maxHeader)
+    (hparse : parseHead (((run cfg init pre).buf ++ segs.flatten).take k) = some ((m, t, v), h))
+    (hka : canKeepAlive cfg.noKeepAlive m v h = some true) (hhost : hostCheck v h = some hostv)
+    (hcl : hGet h kContentLength = some cv) (hv : clPick cv = some cv) (hn : parseInt cv = some (n + 1))
+    (hte : hGet h kTransferEncoding = none)
+    (hle : n + 1 ≤ effLimit cfg (run cfg init pre).idx)
+    (hall : k + (n + 1) ≤ ((run cfg init pre).buf ++ segs.flatten).length) :
+    ∃ s2, run cfg init (pre ++ segs) = drain cfg s2 ∧ s2.phase = .headers ∧ s2.idx = (run cfg init pre).idx + 1 ∧
+      s2.buf = ((run cfg init pre).buf ++ segs.flatten).drop (k + (n + 1)) ∧
+      s2.out = [.w200, .fin, .data (run cfg init pre).idx
+          ((((run cfg init pre).buf ++ segs.flatten).drop k).take (n + 1))] ++
+        (if hGet h kExpect = some k100Continue then [Ev.w100] else []) ++
+          .req m t v (hAll h) :: (run cfg init pre).out := by
+  rw [run_append]
+  exact run_cl_within_gen cfg _ segs (step_run_init cfg pre) hp k n m t v h hostv hk hfit hparse hka hhost
+    (cl_at_limit_ok _ (n + 1) h cv hcl hv hn hle hte) hall
+
+-- non-vacuity: limit 3 with override 5 for the first request; exactly 5 bytes are delivered whole
+example : (run smallCfg init [fiveByteReq]).out
+    = [.w200, .fin, .data 0 [1, 2, 3, 4, 5], .req [80] [47] [72, 84, 84, 80, 47, 49, 46, 49]
+        [([72, 111, 115, 116], [120]), ([67, 111, 110, 116, 101, 110, 116, 45, 76, 101, 110, 103, 116, 104], [53])]] := by decide
 
 /-! ## the configured options are the limits — for every value, `0` included
 
